@@ -35,13 +35,11 @@ def frac(s):
     return F(D(s))
 
 
-def opt_key(x):
-    """`Ord for Option<String>`: None first, then the string by code points (= UTF-8 byte order)"""
-    return (0, "") if x is None else (1, x)
-
-
 def hdr_key(t):
-    return (int(t["ts"]["ns"]), opt_key(t.get("code")), opt_key(t.get("desc")), t.get("uuid") or "")
+    """`Ord for TxnHeader`: instant, code or "", description or "", uuid text or "" (strings by code points =
+    UTF-8 byte order), then absent-before-present for code and for description"""
+    return (int(t["ts"]["ns"]), t.get("code") or "", t.get("desc") or "", t.get("uuid") or "",
+            t.get("code") is not None, t.get("desc") is not None)
 
 
 def uniq(xs):
@@ -375,7 +373,7 @@ class C03(PropBase):
             return {"sig": "txns-output", "what": "loaded transactions cannot be listed: %s" % txo.get("r")}
         txns = txo["v"]
         style = case.get("cfg", {}).get("ts_style", "full")
-        # 1. canonical order of the loaded set: (instant, code, description, uuid), absent before present
+        # 1. canonical order of the loaded set: (instant, code, description, uuid), absent before empty on a full tie
         for i in range(len(txns) - 1):
             if hdr_key(txns[i]) > hdr_key(txns[i + 1]):
                 return {"sig": "load-order", "what": "loaded transactions %d and %d are not in canonical order: %s > %s" % (
